@@ -64,7 +64,11 @@ func TestVerifPropA(t *testing.T) {
 	rapid.Check(t, func(rt *rapid.T) {
 		a := genA(rt)
 		c := Case{Part: "A", A: &a}
-		if v := report(guard(c, ev), c, ev); v != nil {
+		vs := guard(c, ev)
+		if inconclusive != "" {
+			rt.Fatalf("INCONCLUSIVE (not a violation): %s", inconclusive)
+		}
+		if v := report(vs, c, ev); v != nil {
 			rt.Fatalf("%v", v)
 		}
 	})
@@ -75,7 +79,11 @@ func TestVerifPropB(t *testing.T) {
 	rapid.Check(t, func(rt *rapid.T) {
 		b := genB(rt)
 		c := Case{Part: "B", B: &b}
-		if v := report(guard(c, ev), c, ev); v != nil {
+		vs := guard(c, ev)
+		if inconclusive != "" {
+			rt.Fatalf("INCONCLUSIVE (not a violation): %s", inconclusive)
+		}
+		if v := report(vs, c, ev); v != nil {
 			rt.Fatalf("%v", v)
 		}
 	})
